@@ -47,6 +47,54 @@ def _expr(e):
         return (out, lens[0]) if lens else out
     raise Refuse(f'expression not understood: {src}')
 
+ENV_ARG = {'shape': 'sh', 'shape[0]': 'sh0', 'shape[1]': 'sh1', 'scale': 's'}
+
+def _ceil_tuple(st, env):
+    """`shape = np.ceil((a, b)).astype(int)` -> (lean a, lean b)"""
+    global ENV
+    if not (isinstance(st, ast.Assign) and len(st.targets) == 1 and ast.unparse(st.targets[0]) == 'shape'): raise Refuse(f'shape branch: {ast.unparse(st)[:60]}')
+    v = st.value
+    if not (isinstance(v, ast.Call) and isinstance(v.func, ast.Attribute) and v.func.attr == 'astype' and [ast.unparse(a) for a in v.args] == ['int']
+            and isinstance(v.func.value, ast.Call) and ast.unparse(v.func.value.func) in ('np.ceil', 'numpy.ceil') and len(v.func.value.args) == 1
+            and isinstance(v.func.value.args[0], ast.Tuple) and len(v.func.value.args[0].elts) == 2): raise Refuse(f'shape branch: {ast.unparse(st)[:80]}')
+    saved = ENV
+    try:
+        ENV = env
+        return tuple(_expr(x) for x in v.func.value.args[0].elts)
+    finally:
+        ENV = saved
+
+def _shape_branches(fn):
+    """the `shape=` argument: `if shape is None: <default> else: if np.isscalar(shape): <scalar> else: <tuple>`"""
+    top = [st for st in fn.body if isinstance(st, ast.If) and ast.unparse(st.test) == 'shape is None']
+    if len(top) != 1 or len(top[0].body) != 1 or len(top[0].orelse) != 1 or not isinstance(top[0].orelse[0], ast.If): raise Refuse('util.rescale: `if shape is None` dispatch')
+    inner = top[0].orelse[0]
+    if ast.unparse(inner.test) not in ('np.isscalar(shape)', 'numpy.isscalar(shape)') or len(inner.body) != 1 or len(inner.orelse) != 1: raise Refuse(f'shape dispatch: {ast.unparse(inner.test)}')
+    return _ceil_tuple(inner.body[0], ENV_ARG), _ceil_tuple(inner.orelse[0], ENV_ARG)
+
+def _complex_branch(fn):
+    """`if np.iscomplexobj(img): out.real = map_coordinates(img.real, C, order=order, mode=mode); out.imag = …(img.imag, …) else: out = map_coordinates(img, C, …)`"""
+    top = [st for st in fn.body if isinstance(st, ast.If) and ast.unparse(st.test) in ('np.iscomplexobj(img)', 'numpy.iscomplexobj(img)')]
+    if len(top) != 1 or len(top[0].orelse) != 1: raise Refuse('util.rescale: complex dispatch')
+    def call(v):
+        if not (isinstance(v, ast.Call) and ast.unparse(v.func).endswith('map_coordinates') and len(v.args) == 2): raise Refuse(f'interpolation call: {ast.unparse(v)[:60]}')
+        return ast.unparse(v.args[0]), ast.unparse(v.args[1]), sorted((k.arg, ast.unparse(k.value)) for k in v.keywords)
+    e = top[0].orelse[0]
+    if not (isinstance(e, ast.Assign) and ast.unparse(e.targets[0]) == 'out'): raise Refuse('real branch')
+    rsrc, rco, rkw = call(e.value)
+    if rsrc != 'img': raise Refuse(f'real branch interpolates {rsrc}')
+    parts = []
+    for st in top[0].body:
+        if not isinstance(st, ast.Assign): raise Refuse('complex branch statement')
+        t = ast.unparse(st.targets[0])
+        if t == 'out':
+            if ast.unparse(st.value).replace(' ', '') not in ('np.zeros(shape,dtype=np.complex128)', 'np.zeros(shape,dtype=complex)'): raise Refuse(f'complex output buffer: {ast.unparse(st.value)}')
+            continue
+        src, co, kw = call(st.value)
+        if co != rco or kw != rkw: raise Refuse(f'complex part {t} interpolated differently from the real branch: {co} {kw}')
+        parts.append((t, src))
+    return parts, rkw
+
 def generator(repo):
     tree = ast.parse(open(os.path.join(repo, SRC)).read())
     fn = [n for n in tree.body if isinstance(n, ast.FunctionDef) and n.name == 'rescale']
@@ -85,7 +133,18 @@ def generator(repo):
                    f'def {lean}Len : String := "{length}"\n')
     out.append('/-- coordinate arrays handed to `map_coordinates`, in order (first = along axis 0) -/\n'
                f'def rescaleCoordOrder : List String := [{", ".join(chr(34) + x + chr(34) for x in order)}]\n')
-    return '\n'.join(out), [f'ceil {ceil_arg} coords {coords} order {order}']
+    sc, tu = _shape_branches(fn[0])
+    out.append('/-- argument of `np.ceil` for an explicit scalar `shape=` (`np.isscalar(shape)`) -/\n'
+               f'def rescaleCeilArgScalar {cls} (sh s : K) : K × K := ({sc[0]}, {sc[1]})\n')
+    out.append('/-- argument of `np.ceil` for an explicit `shape=(shape[0], shape[1])` -/\n'
+               f'def rescaleCeilArgPair {cls} (sh0 sh1 s : K) : K × K := ({tu[0]}, {tu[1]})\n')
+    parts, kw = _complex_branch(fn[0])
+    q = chr(34)
+    out.append('/-- complex input: (part of the output written, part of the input interpolated) — same coordinates and options as the real branch -/\n'
+               f'def rescaleComplexParts : List (String × String) := [{", ".join(f"({q}{a}{q}, {q}{b}{q})" for a, b in parts)}]\n')
+    out.append('/-- keyword options of the interpolation of `img` (all branches) -/\n'
+               f'def rescaleInterpOptions : List (String × String) := [{", ".join(f"({q}{a}{q}, {q}{b}{q})" for a, b in kw)}]\n')
+    return '\n'.join(out), [f'ceil {ceil_arg} coords {coords} order {order} shape-scalar {sc} shape-pair {tu} complex {parts} options {kw}']
 
 MODULES = [{'name': 'RescaleGrid', 'src': SRC, 'generator': _robust(generator, 'util.rescale grid'), 'props': ['C17']}]
 
